@@ -300,6 +300,17 @@ func genC05(out *Out, r *Rng, tier string, n int, shard int) {
 				impl = okJ(claimSlotsJ(cl))
 				checkClaimAgainstStatement(c, o, cl, root, in, &why)
 			}
+			if o == nil {
+				// nil options mean the documented defaults, whatever was called before in this process
+				d := &verifiable.CoreClaimOptions{SubjectPosition: verifiable.CredentialSubjectPositionIndex, MerklizedRootPosition: verifiable.CredentialMerklizedRootPositionNone}
+				cl2, err2 := runToCoreClaim(vc, d, c)
+				switch {
+				case (err == nil) != (err2 == nil):
+					why = append(why, fmt.Sprintf("ToCoreClaim(nil) and ToCoreClaim(explicit defaults) differ: %v vs %v (nil options depend on earlier calls)", err, err2))
+				case err == nil && !reflect.DeepEqual(claimSlotsJ(cl), claimSlotsJ(cl2)):
+					why = append(why, "ToCoreClaim(nil) builds another claim than ToCoreClaim(explicit defaults)")
+				}
+			}
 			if optsSnapshot(o) != before {
 				why = append(why, fmt.Sprintf("ToCoreClaim modified the caller's options: %s -> %s", before, optsSnapshot(o)))
 			}
